@@ -474,7 +474,7 @@ def check_edge(binding, src, decoded, v, dst, way, port_name=None):
     if 'no tracer' in binding and way == 0 and False:
         return []
     rig = reach(binding, src, way)
-    ports = [port_name] if port_name else (['7FFD', '3FFD'] if decoded else ['7FFF', 'FFFD'])
+    ports = [port_name] if port_name else (['7FFD', '3FFD', '7FFC'] if decoded else ['7FFF', 'FFFD'])
     out = []
     for pn in ports[:1] if port_name else ports:
         if pn != ports[0]:
@@ -583,7 +583,7 @@ def history_case(binding, writes):
 
 def part_c(stats, shard, nshards, tier):
     quick = tier == 'quick'
-    second_ports = ('7FFD', '7FFF', 'FFFD', '3FFD')
+    second_ports = ('7FFD', '7FFF', 'FFFD', '3FFD', '7FFC', '00FD')     # 7FFC: an even (ULA) port that also matches the paging decode
     # quick: all 256 x 256 value pairs on the Python tracer and the C internal binding with the decoded
     # port, all 256 x 64-class pairs elsewhere; thorough: all 256 x 256 x 4 ports on every binding
     classes = sorted({(v & 0x37) | (0xC8 if v & 0x40 else 0) for v in range(256)})
@@ -596,7 +596,7 @@ def part_c(stats, shard, nshards, tier):
             i += 1
             if i % nshards != shard:
                 continue
-            for pn in (second_ports if full else ('7FFD', '7FFF', 'FFFD')):
+            for pn in (second_ports if full else ('7FFD', '7FFF', 'FFFD', '7FFC')):
                 for v2 in (seconds if (full and pn == '7FFD') or not quick else classes):
                     d = history_case(binding, [('7FFD', v1), (pn, v2)])
                     stats.evaluations += 1
